@@ -54,8 +54,11 @@ type c19Target struct {
 	neutral []byte
 	// zero: a neutral encoding accepted in addition to "unchanged" when neutral is nil
 	zero []byte
-	// allowPanic matches the documented panics of this entry point.
-	allowPanic func(msg string) bool
+	// panicsOnLength: the entry point is documented to panic when this argument has
+	// the wrong length (public key, seed, pre-hash, private key of the non-error
+	// provers).  The documented panic is recognised by that condition - a wrong-length
+	// input and a panic value that is not a Go runtime error - not by its wording.
+	panicsOnLength bool
 	// lengthLenient: inputs of the wrong length are not malformed for this API.
 	anyLength bool
 }
@@ -132,14 +135,9 @@ func c19Targets() []c19Target {
 		return kp
 	}
 	presets := []*ed25519.VerifyOptions{ed25519.VerifyOptionsDefault, ed25519.VerifyOptionsStdLib, ed25519.VerifyOptionsFIPS_186_5, ed25519.VerifyOptionsZIP_215}
-	pkLenPanic := func(m string) bool { return strings.HasPrefix(m, "ed25519: bad public key length") }
-	never := func(string) bool { return false }
 
 	var ts []c19Target
 	add := func(t c19Target) {
-		if t.allowPanic == nil {
-			t.allowPanic = never
-		}
 		ts = append(ts, t)
 	}
 
@@ -278,7 +276,7 @@ func c19Targets() []c19Target {
 			try: func(c *c19Ctx, prev, b []byte) c19Res {
 				return c19Res{ok: ed25519.VerifyWithOptions(c.aux["pk"], c.aux["msg"], b, o)}
 			}})
-		add(c19Target{name: fmt.Sprintf("ed25519.VerifyWithOptions[preset%d](public key)", i), size: 32, gen: genEdPk, allowPanic: pkLenPanic,
+		add(c19Target{name: fmt.Sprintf("ed25519.VerifyWithOptions[preset%d](public key)", i), size: 32, gen: genEdPk, panicsOnLength: true,
 			try: func(c *c19Ctx, prev, b []byte) c19Res {
 				return c19Res{ok: ed25519.VerifyWithOptions(b, c.aux["msg"], c.aux["sig"], o)}
 			}})
@@ -339,7 +337,7 @@ func c19Targets() []c19Target {
 			return c19Res{ok: err == nil}
 		}})
 	add(c19Target{name: "ed25519.NewKeyFromSeed(seed)", size: 32, gen: func(c *c19Ctx) []byte { return c.g.Bytes(32) },
-		allowPanic: func(m string) bool { return strings.HasPrefix(m, "ed25519: bad seed length") },
+		panicsOnLength: true,
 		try: func(c *c19Ctx, prev, b []byte) c19Res {
 			k := ed25519.NewKeyFromSeed(b)
 			return c19Res{ok: len(k) == 64}
@@ -732,11 +730,8 @@ func runC19(e *Env, r *core.Run) {
 			r.Fail(class, key, "%s on %s input %x (len %d): %s", tg.name, what, b, len(b), fmt.Sprintf(format, args...))
 		}
 		if pan {
-			if tg.allowPanic(msg) {
+			if tg.panicsOnLength && len(b) != tg.size && !strings.HasPrefix(msg, "runtime error") {
 				r.Count(c19docPanic)
-				if len(b) == tg.size {
-					fail("undocumented-panic", fname, "documented length panic %q raised for an input of the right length", msg)
-				}
 				return
 			}
 			fail("undocumented-panic", fname, "panic: %s", msg)
